@@ -117,6 +117,8 @@ TARGETS = [
          pynames=["start", "end"], params=[("start", "optint"), ("end", "optint")]),
     dict(file="bitstring/bits.py", cls="Bits", func="__add__", lean="add", mode="trace", pynames=["bs"], params=[],
          lens={"len(bs)": "len_bs"}),
+    dict(file="bitstring/array_.py", cls="Array", func="append", lean="array_append", mode="trace", pynames=["x"], params=[],
+         attrs={"self._dtype.bitlength": ("itemsize", "int")}, lens={"len(self.data)": "len_data"}, no_self_len=True),
     dict(file="bitstring/array_.py", cls="Array", func="pop", lean="array_pop", mode="trace", pynames=["i"], params=[("i", "int")]),
     # ---- batch 5: the length rules of the integer / float setters and the whole-byte rules of the endian getters --------
     dict(file="bitstring/bits.py", cls="Bits", func="_setuint", lean="setuint", mode="trace",
